@@ -39,6 +39,11 @@ async def expect_async(expecter, timeout=None):
         return await asyncio.wait_for(pattern_waiter.fut, timeout)
     except asyncio.TimeoutError as exc:
         transport.pause_reading()
+        # Text that arrived when the time was already up (with timeout=0:
+        # whatever was readable) has been stored but not searched yet.
+        idx = expecter.existing_data()
+        if idx is not None:
+            return idx
         return expecter.timeout(exc)
 
 
